@@ -38,14 +38,16 @@ def objects(platform):
         a.srcaddr.note = Note("src")
         return a
 
-    def acl(group=False):
+    def acl(group=False, groups=True):
         def f():
-            a = cisco_acl.Acl("\n".join([head, "remark = H1", f"permit tcp {host} any eq 80", f"deny ip {g} G1 any log", "remark = H2", "permit icmp any any",
+            a = cisco_acl.Acl("\n".join([head, "remark = H1", f"permit tcp {host} any eq 80", f"deny ip {g} G1 any log" if groups else f"deny ip {net} {host} log", "remark = H2", "permit icmp any any",
                                          f"permit tcp any range 20 21 {net} range 1024 65535", "permit udp any any gt 1023"]),
                               platform=platform, note=Note("acl"))
             for i, o in enumerate(a.items):
                 o.note = Note(i)
                 if isinstance(o, cisco_acl.Ace):
+                    for f_ in ("protocol", "srcaddr", "srcport", "dstaddr", "dstport", "option"):
+                        getattr(o, f_).note = Note((i, f_))
                     for addr in (o.srcaddr, o.dstaddr):
                         if addr.addrgroup:
                             addr.items = [cisco_acl.Address(m, platform=platform) for m in sc.GROUPS[platform][addr.addrgroup]]
@@ -67,6 +69,7 @@ def objects(platform):
         ("AceGroup", lambda: cisco_acl.AceGroup("\n".join(["remark = H1", f"permit tcp {host} any eq 80", "deny ip any any"]), platform=platform, note=Note(10))),
         ("Acl", acl(False)),
         ("Acl(grouped)", acl(True)),
+        ("Acl(no address groups)", acl(False, False)),
     ]
 
 
@@ -174,13 +177,13 @@ def strip(line):
     return " ".join(t[1:] if t and t[0].isdigit() else t)
 
 
-TRANSFORMS = ["platform", "platform-back", "port_nr", "protocol_nr", "resequence", "sort", "group", "ungroup", "type", "ungroup_ports", "grouped-platform", "delete_shadow"]
+TRANSFORMS = ["type-standard", "type-standard-back", "platform", "platform-back", "port_nr", "protocol_nr", "resequence", "sort", "group", "ungroup", "type", "ungroup_ports", "grouped-platform", "delete_shadow"]
 
 
 def check_ids(arg):
     import cisco_acl
     platform, tr = arg
-    acl = objects(platform)[11][1]()
+    acl = objects(platform)[13 if tr.startswith("type-standard") else 11][1]()
     other = "nxos" if platform == "ios" else "ios"
     before = ids(acl)
     fails = []
@@ -207,6 +210,11 @@ def check_ids(arg):
             acl.ungroup()
         elif tr == "type":
             acl.type = "extended"
+        elif tr == "type-standard":
+            acl.type = "standard"
+        elif tr == "type-standard-back":
+            acl.type = "standard"
+            acl.type = "extended"
         elif tr == "ungroup_ports":
             acl.ungroup_ports()
         elif tr == "grouped-platform":
@@ -215,6 +223,8 @@ def check_ids(arg):
         elif tr == "delete_shadow":
             acl.delete_shadow()
     except Exception as ex:
+        if tr.startswith("type-standard") and platform == "nxos" and isinstance(ex, ValueError):
+            return [], 1        # NX-OS has no standard ACLs: the switch is refused
         return [dict(key=f"bounded/Acl.{tr}:error", what=f"{type(ex).__name__}: {ex}", inputs=dict(platform=platform, transform=tr))], 1
     after = ids(acl)
 
@@ -262,7 +272,7 @@ def main(chk):
         for f in fails:
             viol += 1
             chk.finding(f["key"], f["what"], inputs=f["inputs"], cmd=f.get("cmd"), key=f["key"])
-    chk.add_bounded("in-place transformations keep uuid and note of items and of nested objects", len(cases), len(cases), "12 transformations x 2 platforms on a 7-item ACL (eq, range, gt ports, address group) with notes everywhere",
+    chk.add_bounded("in-place transformations keep uuid and note of items and of nested objects", len(cases), len(cases), "14 transformations x 2 platforms on a 7-item ACL (eq, range, gt ports, address group) with notes everywhere",
                     viol, time.time() - t0, [list(cases[0])], exhaustive=True)
     chk.assumptions += ["aliasing through **data() dictionaries and __dict__.update needs an ownership logic pyvc does not have: no obligation is discharged deductively"]
     return chk.finish("other", "Bounded contract check only (object-graph identity and aliasing): equal rebuilds, disjoint reachable mutable state, mutate-then-observe, "
